@@ -446,6 +446,91 @@ theorem gen_unwhitened_prior_jitter_ne_forward_jitter (e : Env M n r α) (h : e.
 /-- `kl_divergence()` is `KL(q(u) ‖ p(u))` — variational distribution first, prior second. -/
 theorem gen_kl_order {β γ : Type} (KL : β → β → γ) (q p : β) : klDivergence KL q p = KL q p := rfl
 
+/-! #### wave 3: training-mode branch of the unwhitened strategy, batch-decoupled / orthogonally-decoupled / grid -/
+
+/-- **gen_unwhitened_train_eq_model.**  The TRAINING-mode branch of `UnwhitenedVariationalStrategy.forward` as the source
+writes it (`inv_quad_logdet(…, reduce_inv_quad=False)`, `diagonal`, `clamp(0, ∞)`, `DiagLinearOperator`, root term):
+the mean is the evaluation-mode mean, and every diagonal entry of the returned covariance — the training-mode
+variance — is the hand-written `unwhitenedTrainVar`. -/
+theorem gen_unwhitened_train_eq_model [LinearOrder α] (e : Env M n r α) :
+    uTrainMean e = uMean e
+      ∧ ∀ i : Fin n, (uTrainCov e).toMatrix i i = unwhitenedTrainVar e.Kzx e.Kxx e.Ki e.R i := by
+  refine ⟨rfl, fun i => ?_⟩
+  simp [uTrainCov, unwhitenedTrainVar, invQuadDiag, clamp0, DMat.diag, Matrix.add_apply]
+
+/-- **gen_unwhitened_train_var_eq_closed_form.**  Under the contracts of the primitives, wherever the clamped quantity
+`Kxx[i,i] − (Kxz K̃⁻¹ Kzx)[i,i]` is non-negative (it is for a PSD joint prior), the training-mode variance computed by the
+generated branch is the diagonal entry of the property's closed-form covariance. -/
+theorem gen_unwhitened_train_var_eq_closed_form [LinearOrder α] (e : Env M n r α)
+    (hL : e.L.toMatrix * e.L.toMatrixᵀ = (uCholArg e).toMatrix) (hdet : IsUnit e.L.toMatrix.det)
+    (hKi : e.Ki.toMatrix = (uSolveMat e).toMatrix⁻¹) (hR : e.R.toMatrix * e.R.toMatrixᵀ = e.S.toMatrix)
+    (i : Fin n) (hpos : 0 ≤ e.Kxx.toMatrix i i - (e.Kzx.transpose.mul (e.Ki.mul e.Kzx)).toMatrix i i) :
+    (uTrainCov e).toMatrix i i
+      = (closedForm e.Kzx (addJitter e.Kxx 0) e.mX (uCholArg e) e.Ki (e.m.sub e.mZ) e.S).cov.toMatrix i i := by
+  have h := (gen_unwhitened_eq_model e).1.symm.trans (gen_unwhitened_eq_closed_form e hL hdet hKi hR)
+  rw [(gen_unwhitened_train_eq_model e).2 i,
+    unwhitened_train_var e.Kzx e.Kxx e.mX e.Ki (e.m.sub e.mZ) e.R i hpos, h]
+
+/-- **gen_batch_decoupled_eq_model.**  `BatchDecoupledVariationalStrategy.forward` as the source writes it: the mean is
+the whitened mean of the MEAN inducing set (slice `0` of the stacked dimension), the covariance the whitened covariance of
+the VARIANCE set (slice `1`), both with `εₓ = ε = jitter_val`; each slice of the Cholesky argument is `Kzzₖ + εI`. -/
+theorem gen_batch_decoupled_eq_model (e : EnvBD M n α) :
+    bdMean e = (whitenedFwd e.Kzx0 e.Kxx0 e.mX0 e.ε e.Li0 e.m e.S).mean
+      ∧ bdCov e = (whitenedFwd e.Kzx1 e.Kxx1 e.mX1 e.ε e.Li1 e.m e.S).cov
+      ∧ bdCholArg0 e = addJitter e.Kzz0 e.ε ∧ bdCholArg1 e = addJitter e.Kzz1 e.ε := by
+  refine ⟨rfl, ?_, rfl, rfl⟩
+  simp only [whitenedFwd, bdCov]
+  apply toMatrix_injective; simp [sub_eq_add_neg]
+
+/-- **gen_batch_decoupled_eq_closed_form.**  Under the contracts of the two Cholesky factors, the generated mean is the
+closed-form mean for the mean inducing set and the generated covariance the closed-form covariance for the variance set
+(`q(u)` described by the same whitened `(m, S)` in both). -/
+theorem gen_batch_decoupled_eq_closed_form (e : EnvBD M n α) (Ki0 Ki1 : DMat M M α)
+    (hL0 : e.L0.toMatrix * e.L0.toMatrixᵀ = (bdCholArg0 e).toMatrix) (hdet0 : IsUnit e.L0.toMatrix.det)
+    (hLi0 : e.Li0.toMatrix = e.L0.toMatrix⁻¹) (hKi0 : Ki0.toMatrix = (bdCholArg0 e).toMatrix⁻¹)
+    (hL1 : e.L1.toMatrix * e.L1.toMatrixᵀ = (bdCholArg1 e).toMatrix) (hdet1 : IsUnit e.L1.toMatrix.det)
+    (hLi1 : e.Li1.toMatrix = e.L1.toMatrix⁻¹) (hKi1 : Ki1.toMatrix = (bdCholArg1 e).toMatrix⁻¹) :
+    bdMean e = (closedForm e.Kzx0 (addJitter e.Kxx0 e.ε) e.mX0 (bdCholArg0 e) Ki0
+                  (unwhiten e.L0 e.m e.S).1 (unwhiten e.L0 e.m e.S).2).mean
+      ∧ bdCov e = (closedForm e.Kzx1 (addJitter e.Kxx1 e.ε) e.mX1 (bdCholArg1 e) Ki1
+                  (unwhiten e.L1 e.m e.S).1 (unwhiten e.L1 e.m e.S).2).cov := by
+  obtain ⟨hm, hc, _, _⟩ := gen_batch_decoupled_eq_model e
+  rw [hm, hc]
+  exact ⟨congrArg QF.mean (whitened_eq_closed_form e.Kzz0 e.Kzx0 e.Kxx0 e.mX0 e.ε e.ε e.L0 e.Li0 Ki0 e.m e.S
+      hL0 hdet0 hLi0 hKi0),
+    congrArg QF.cov (whitened_eq_closed_form e.Kzz1 e.Kzx1 e.Kxx1 e.mX1 e.ε e.ε e.L1 e.Li1 Ki1 e.m e.S
+      hL1 hdet1 hLi1 hKi1)⟩
+
+/-- **gen_orth_eq_model.**  `OrthogonallyDecoupledVariationalStrategy.forward / .prior_distribution / .kl_divergence` as
+the source writes them: `q(f) = orthFwd` (mean `Cxz m + μx`, covariance `Cxx`, joint ordered `[x; Z]`); the evaluation-mode
+prior of the mean inducing values is `N(μz, Czz + εI)`, the prior cached by a training-mode forward `N(μz, Czz)`; and
+`kl_divergence()` = base KL + `½ mᵀ P m` with that prior covariance `P` (`orthKLExtra` is the term without the `½`). -/
+theorem gen_orth_eq_model (e : EnvOrth M n α) (kb : α) :
+    ({ mean := oMean e, cov := oCov e } : QF n α) = orthFwd e.μx e.Cxx e.Cxz e.m
+      ∧ oPriorMean e = e.μz ∧ oPriorCov e = addJitter e.Czz e.ε ∧ oTrainPriorCov e = e.Czz
+      ∧ oKLEval e kb = kb + (1 / 2) * orthKLExtra e.Czz e.ε e.m
+      ∧ oKLTrain e kb = kb + (1 / 2) * orthKLExtra e.Czz 0 e.m := by
+  have hdot : ∀ (P : DMat M M α) (v : DMat M 1 α),
+      (((P.mul v).transpose.mul v).toMatrix 0 0) = quadForm P v := by
+    intro P v
+    simp [quadForm, Matrix.mul_apply, mul_comm]
+  have hj0 : addJitter e.Czz 0 = e.Czz := by
+    apply toMatrix_injective; simp [addJitter]
+  refine ⟨rfl, rfl, rfl, rfl, ?_, ?_⟩
+  · simp only [oKLEval, orthKLExtra, hdot]
+  · simp only [oKLTrain, orthKLExtra, hdot, hj0]
+
+/-- **gen_grid_eq_model.**  `GridInterpolationVariationalStrategy.forward` as the source writes it
+(`left_interp(i, v, ·) = W ·`, `InterpolatedLinearOperator(S, i, v, i, v) = W S Wᵀ`) is `interpFwd`; its prior is
+`N(mZ, Kzz + cI)` with `c` the literal jitter of the source. -/
+theorem gen_grid_eq_model (e : EnvGrid M n α) :
+    ({ mean := gMean e, cov := gCov e } : QF n α) = interpFwd e.W e.m e.S
+      ∧ gPriorMean e = e.mZ ∧ gPriorCov e = addJitter e.Kzz (gPriorJitter e) := by
+  refine ⟨?_, rfl, rfl⟩
+  simp only [interpFwd, gMean, gCov, QF.mk.injEq]
+  refine ⟨True.intro, ?_⟩
+  apply toMatrix_injective; simp [Matrix.mul_assoc]
+
 end Generated
 
 /-! ### the hypotheses are satisfiable (non-vacuity) -/
@@ -460,5 +545,45 @@ example : ∃ (L Kzz : Matrix (Fin 2) (Fin 2) ℚ) (ε : ℚ),
 /-- the executable model returns `some` on a concrete instance (so the `…?`-theorems are not vacuous). -/
 example : (natural? (DMat.ofMatrix !![(1 : ℚ); 2]) (DMat.ofMatrix !![(-1 : ℚ), 1/4; 1/4, -1])).isSome = true := by
   decide +kernel
+
+/-- the hypotheses of `gen_unwhitened_train_var_eq_closed_form` are satisfiable (1×1 instance: `Kzz = 4`, `L = 2`,
+`Ki = 1/4`, `R Rᵀ = S = 1`, clamped quantity `1 − 1/4 ≥ 0`). -/
+example : ∃ e : Gen.VariationalAlgebra.Env 1 1 1 ℚ,
+    e.L.toMatrix * e.L.toMatrixᵀ = (Gen.VariationalAlgebra.uCholArg e).toMatrix ∧ IsUnit e.L.toMatrix.det
+    ∧ e.Ki.toMatrix = (Gen.VariationalAlgebra.uSolveMat e).toMatrix⁻¹ ∧ e.R.toMatrix * e.R.toMatrixᵀ = e.S.toMatrix
+    ∧ 0 ≤ e.Kxx.toMatrix 0 0 - (e.Kzx.transpose.mul (e.Ki.mul e.Kzx)).toMatrix 0 0 := by
+  let c : ℚ → DMat 1 1 ℚ := fun q => DMat.ofMatrix !![q]
+  refine ⟨{ Kzz := c 4, Kzx := c 1, Kxx := c 1, mX := c 0, mZ := c 0, m := c 1, S := c 1, R := c 1,
+            L := c 2, Li := c (1/2), Ki := c (1/4), ε := 0, εd := 0 }, ?_, ?_, ?_, ?_, ?_⟩
+  · ext i j; fin_cases i; fin_cases j
+    norm_num [c, Gen.VariationalAlgebra.uCholArg, addJitter, Matrix.mul_apply]
+  · simp [c]
+  · symm; apply Matrix.inv_eq_right_inv; ext i j; fin_cases i; fin_cases j
+    norm_num [c, Gen.VariationalAlgebra.uSolveMat, Matrix.mul_apply, Matrix.vecMul, dotProduct]
+  · ext i j; fin_cases i; fin_cases j; norm_num [c, Matrix.mul_apply]
+  · norm_num [c, Matrix.mul_apply]
+
+/-- the hypotheses of `gen_batch_decoupled_eq_closed_form` are satisfiable (two 1×1 inducing sets, `Kzz₀ = 4`, `Kzz₁ = 9`). -/
+example : ∃ (e : Gen.VariationalAlgebra.EnvBD 1 1 ℚ) (Ki0 Ki1 : DMat 1 1 ℚ),
+    e.L0.toMatrix * e.L0.toMatrixᵀ = (Gen.VariationalAlgebra.bdCholArg0 e).toMatrix ∧ IsUnit e.L0.toMatrix.det
+    ∧ e.Li0.toMatrix = e.L0.toMatrix⁻¹ ∧ Ki0.toMatrix = (Gen.VariationalAlgebra.bdCholArg0 e).toMatrix⁻¹
+    ∧ e.L1.toMatrix * e.L1.toMatrixᵀ = (Gen.VariationalAlgebra.bdCholArg1 e).toMatrix ∧ IsUnit e.L1.toMatrix.det
+    ∧ e.Li1.toMatrix = e.L1.toMatrix⁻¹ ∧ Ki1.toMatrix = (Gen.VariationalAlgebra.bdCholArg1 e).toMatrix⁻¹ := by
+  let c : ℚ → DMat 1 1 ℚ := fun q => DMat.ofMatrix !![q]
+  refine ⟨{ Kzz0 := c 4, Kzz1 := c 9, Kzx0 := c 1, Kzx1 := c 1, Kxx0 := c 1, Kxx1 := c 1, mX0 := c 0, mX1 := c 0,
+            L0 := c 2, L1 := c 3, Li0 := c (1/2), Li1 := c (1/3), m := c 1, S := c 1, ε := 0 }, c (1/4), c (1/9),
+          ?_, ?_, ?_, ?_, ?_, ?_, ?_, ?_⟩
+  · ext i j; fin_cases i; fin_cases j
+    norm_num [c, Gen.VariationalAlgebra.bdCholArg0, addJitter, Matrix.mul_apply]
+  · simp [c]
+  · symm; apply Matrix.inv_eq_right_inv; ext i j; fin_cases i; fin_cases j; norm_num [c, Matrix.mul_apply]
+  · symm; apply Matrix.inv_eq_right_inv; ext i j; fin_cases i; fin_cases j
+    norm_num [c, Gen.VariationalAlgebra.bdCholArg0, addJitter, Matrix.mul_apply]
+  · ext i j; fin_cases i; fin_cases j
+    norm_num [c, Gen.VariationalAlgebra.bdCholArg1, addJitter, Matrix.mul_apply]
+  · simp [c]
+  · symm; apply Matrix.inv_eq_right_inv; ext i j; fin_cases i; fin_cases j; norm_num [c, Matrix.mul_apply]
+  · symm; apply Matrix.inv_eq_right_inv; ext i j; fin_cases i; fin_cases j
+    norm_num [c, Gen.VariationalAlgebra.bdCholArg1, addJitter, Matrix.mul_apply]
 
 end C14
